@@ -70,6 +70,10 @@ CHECKS = {
    technique="explicit-state search over ECMP round histories on the real State/FlowRegistry; invariants of the statement evaluated after every round by replay, statistics against the C05 reference",
    text="19 round shapes (path length 1..3, per-hop address a1/a2/unknown, failed probes) x first_ttl{1,2} x max_flows{1,2,3,64}: all histories to depth 4 (5 thorough): dense ids, flows only gain information, attributed flow agrees with the round position by position (position = TTL - first probed TTL), <= max_flows, cap behaviour (matching rounds still attributed, nothing created), default flow = all rounds, every flow's round count and hop statistics = recomputation over exactly its rounds.",
    note="synthetic rounds obey the strategy's contract (DESIGN.md 5.4); entries beyond the round's path length are not judged", ref="3/C15"),
+ "C20": dict(cat="model_checking", engine="E4",
+   technique="controlled-scheduler exhaustive enumeration of all thread interleavings at lock operations of the real Tracer (real OS threads, real parking_lot lock behind an observable wrapper); linearizability oracle against the sequential State",
+   text="Tracer thread (R rounds over the simulated network, incl. the fatal-error path) x snapshot reader threads x a clear() thread on one real Tracer: a scheduling point at every lock acquisition attempt and thread start/end, ALL schedules enumerated with no preemption bound (quick: 4 configurations, ~10^4 schedules; thorough: 7 configurations up to R=4, 3 snapshots, 2 clears, two readers). Every observed snapshot must be explained by a total order, consistent with real-time order, of whole apply(round)/clear/set_error operations replayed on a fresh real State.",
+   note="only the RwLock operations in tracer.rs are scheduling points (the only shared mutable state; safe Rust elsewhere); " + ASSUME_SIM, ref="3/C20"),
 }
 
 NOT_YET = {
@@ -117,6 +121,8 @@ def main():
         },
         "engines": [
             {"name": "E1", "path": "harness/vcore/src/mc.rs", "serves_properties": ["C01","C03","C06","C07","C08","C09","C19"], "kind_free_text": "stateless deviation-bounded explorer (prefix-replay DFS over environment choices)"},
+            {"name": "E3", "path": "harness/vcore/src/stateexp.rs", "serves_properties": ["C05","C10","C15"], "kind_free_text": "explicit-state depth-bounded search over round histories on the real State, de-duplicated on canonical keys (all getter results)"},
+            {"name": "E4", "path": "harness/vcore/src/sched.rs", "serves_properties": ["C20"], "kind_free_text": "controlled scheduler for real OS threads: baton passing at every lock operation of trippy-core's observable RwLock wrapper, schedules enumerated by prefix-replay DFS"},
             {"name": "E2", "path": "harness/vcore/src/simnet.rs", "serves_properties": ["C01","C02","C03","C04","C09","C11","C13","C14","C16","C19","C20"], "kind_free_text": "simulated network implementing the real Socket trait + independent RFC wire codec + virtual clock + ground-truth log"},
         ],
         "checks": checks,
